@@ -470,12 +470,12 @@ def attach_all(run, rt):
     import cnvlib.commands as CM
     import cnvlib.descriptives as D
     import cnvlib.cnary as CN
-    traced = [("reference.do_reference", R.do_reference), ("reference.do_reference_flat", R.do_reference_flat), ("reference.infer_sexes", R.infer_sexes),
-              ("reference.combine_probes", R.combine_probes), ("reference.load_sample_block", R.load_sample_block),
-              ("reference.bias_correct_logr", R.bias_correct_logr), ("reference.shift_sex_chroms", R.shift_sex_chroms),
-              ("reference.summarize_info", R.summarize_info), ("reference.get_fasta_stats", R.get_fasta_stats), ("reference.calculate_gc_lo", R.calculate_gc_lo),
-              ("reference.fasta_extract_regions", R.fasta_extract_regions), ("descriptives.biweight_location", D.biweight_location),
-              ("descriptives.biweight_midvariance", D.biweight_midvariance), ("CopyNumArray.expect_flat_log2", CN.CopyNumArray.expect_flat_log2)]
+    traced = [("reference.do_reference", rt.opt(R, "do_reference")), ("reference.do_reference_flat", rt.opt(R, "do_reference_flat")), ("reference.infer_sexes", rt.opt(R, "infer_sexes")),
+              ("reference.combine_probes", rt.opt(R, "combine_probes")), ("reference.load_sample_block", rt.opt(R, "load_sample_block")),
+              ("reference.bias_correct_logr", rt.opt(R, "bias_correct_logr")), ("reference.shift_sex_chroms", rt.opt(R, "shift_sex_chroms")),
+              ("reference.summarize_info", rt.opt(R, "summarize_info")), ("reference.get_fasta_stats", rt.opt(R, "get_fasta_stats")), ("reference.calculate_gc_lo", rt.opt(R, "calculate_gc_lo")),
+              ("reference.fasta_extract_regions", rt.opt(R, "fasta_extract_regions")), ("descriptives.biweight_location", rt.opt(D, "biweight_location")),
+              ("descriptives.biweight_midvariance", rt.opt(D, "biweight_midvariance")), ("CopyNumArray.expect_flat_log2", rt.opt(CN.CopyNumArray, "expect_flat_log2"))]
     rt.attach(R, "summarize_info", name="reference.summarize_info", pre=pre_summ, post=post_summ)
     rt.attach(R, "combine_probes", name="reference.combine_probes[sexes]", pre=pre_combine)
     rt.attach(R, "get_fasta_stats", name="reference.get_fasta_stats", pre=pre_fasta, post=post_fasta)
